@@ -343,7 +343,6 @@ package aper
 //@ ensures tooshort: vc.Imp(lowerBoundPtr != nil && bitsLength < uint64(*lowerBoundPtr), err != nil)
 //@ ensures offset: pd.bitsOffset <= 7 && (pd.bitsOffset == 0 || len(pd.bytes) > 0)
 //@ ensures grows: vcBitLen(pd) >= b0
-//@ ensures einv: vc.Imp(err == nil, vcEInv(pd))
 //@ ensures fixed16: vc.Imp(err == nil && r == 1 && !extensive && bitsLength <= 16, vcBitLen(pd) == b0+bitsLength)
 //@ ensures fixedn: vc.Imp(err == nil && r == 1 && !extensive && bitsLength > 16, vcBitLen(pd) == ((b0+7)>>3)*8+bitsLength)
 //@ ensures prefix: vc.Forall(0, int(b0>>3), func(t int) bool { return pd.bytes[t] == old0[t] })
